@@ -126,4 +126,14 @@ theorem batches_spec {inst : Instance} (hne : ∀ q ∈ inst.queues, ∀ e ∈ q
     exact ⟨cut, hcut, by rw [← N_above _ hsplit]; exact h1, by rw [← blockersAtN_eq _ hsplit]; exact h2⟩
   · intro b hb; exact (hinv.sizes b (hmem hb)).2.1
 
+/-! `pruneProgressive` against the two vectors of the Rust unit test `test_prune_progressive` -/
+
+example : pruneProgressive (List.range 1000) =
+    [0, 1, 2, 3, 4, 5, 9, 16, 26, 38, 53, 71, 91, 115, 140, 169, 201, 235, 272, 311, 353, 398, 446, 497, 550, 606,
+     665, 726, 790, 857, 927, 999] := by decide +kernel
+
+example : pruneProgressive (List.range 40) =
+    [0, 1, 2, 3, 4, 5, 6, 7, 8, 9, 10, 11, 12, 13, 14, 15, 16, 17, 18, 19, 20, 21, 22, 23, 24, 25, 27, 29, 32, 34,
+     36, 39] := by decide +kernel
+
 end HqModel.Sched
